@@ -1,0 +1,89 @@
+use super::Graph;
+use crate::verif_hooks::{GraphSnapshot, SnapEdge};
+use crate::Edge;
+use std::fmt::Display;
+use std::hash::Hash;
+use std::sync::Arc;
+
+fn snap_edges<T, A>(edges: &[Arc<Edge<T, A>>]) -> Vec<SnapEdge<T, A>>
+where
+    T: Clone + PartialOrd + Send,
+    A: Clone,
+{
+    edges
+        .iter()
+        .map(|e| SnapEdge {
+            u: e.u.clone(),
+            v: e.v.clone(),
+            weight: e.weight,
+            attributes: e.attributes.clone(),
+        })
+        .collect()
+}
+
+impl<T, A> Graph<T, A>
+where
+    T: Eq + Clone + PartialOrd + Ord + Hash + Send + Sync + Display,
+    A: Clone,
+{
+    /// Returns a read-only copy of all the private indexes of the graph (verification hook).
+    pub fn verif_snapshot(&self) -> GraphSnapshot<T, A> {
+        GraphSnapshot {
+            nodes_vec: self
+                .nodes_vec
+                .iter()
+                .map(|n| (n.name.clone(), n.attributes.clone()))
+                .collect(),
+            nodes_map: self
+                .nodes_map
+                .iter()
+                .map(|(k, v)| (k.clone(), *v))
+                .collect(),
+            nodes_map_rev: self
+                .nodes_map_rev
+                .iter()
+                .map(|(k, n)| (*k, n.name.clone(), n.attributes.clone()))
+                .collect(),
+            edges: self
+                .edges
+                .iter()
+                .map(|(k, v)| (k.clone(), snap_edges(v)))
+                .collect(),
+            edges_map: self
+                .edges_map
+                .iter()
+                .flat_map(|(u, hm)| hm.iter().map(move |(v, es)| ((*u, *v), snap_edges(es))))
+                .collect(),
+            successors: self
+                .successors
+                .iter()
+                .map(|(k, hs)| (k.clone(), hs.iter().cloned().collect()))
+                .collect(),
+            successors_map: self
+                .successors_map
+                .iter()
+                .map(|(k, hs)| (*k, hs.iter().copied().collect()))
+                .collect(),
+            successors_vec: self
+                .successors_vec
+                .iter()
+                .map(|v| v.iter().map(|a| (a.node_index, a.weight)).collect())
+                .collect(),
+            predecessors: self
+                .predecessors
+                .iter()
+                .map(|(k, hs)| (k.clone(), hs.iter().cloned().collect()))
+                .collect(),
+            predecessors_map: self
+                .predecessors_map
+                .iter()
+                .map(|(k, hs)| (*k, hs.iter().copied().collect()))
+                .collect(),
+            predecessors_vec: self
+                .predecessors_vec
+                .iter()
+                .map(|v| v.iter().map(|a| (a.node_index, a.weight)).collect())
+                .collect(),
+        }
+    }
+}
